@@ -126,10 +126,10 @@ func init() {
 			}
 			return nil
 		}
-		m.addPC(c)
-		if !m.feasible(nil) {
+		if !m.feasible(c) {
 			m.end("assume", "assumption infeasible")
 		}
+		m.addPC(c)
 		return nil
 	})
 	reg("Assert", func(m *Machine, fn *ssa.Function, a []Value) Value {
@@ -143,6 +143,29 @@ func init() {
 	reg("Observe", func(m *Machine, fn *ssa.Function, a []Value) Value {
 		m.observed = append(m.observed, Observation{m.argStr(a[0]), a[1]})
 		return nil
+	})
+	byteIn := func(m *Machine, c *sym.Term, spec string) *sym.Term {
+		var alts []*sym.Term
+		for i := 0; i < len(spec); i++ {
+			if i+2 < len(spec) && spec[i+1] == '-' {
+				alts = append(alts, m.ctx.And(m.ctx.Ule(m.ctx.BV(uint64(spec[i]), 8), c), m.ctx.Ule(c, m.ctx.BV(uint64(spec[i+2]), 8))))
+				i += 2
+				continue
+			}
+			alts = append(alts, m.ctx.Eq(c, m.ctx.BV(uint64(spec[i]), 8)))
+		}
+		return m.ctx.Or(alts...)
+	}
+	reg("ByteIn", func(m *Machine, fn *ssa.Function, a []Value) Value {
+		return byteIn(m, a[0].(*sym.Term), m.argStr(a[1]))
+	})
+	reg("AllIn", func(m *Machine, fn *ssa.Function, a []Value) Value {
+		spec := m.argStr(a[1])
+		var cs []*sym.Term
+		for _, b := range a[0].(*Str).B {
+			cs = append(cs, byteIn(m, b, spec))
+		}
+		return m.ctx.And(cs...)
 	})
 	reg("PermuteMaps", func(m *Machine, fn *ssa.Function, a []Value) Value {
 		m.permuteMaps = a[0].(*sym.Term).IsTrue()
@@ -457,10 +480,25 @@ func (m *Machine) assert(cond *sym.Term, id string) {
 	neg := m.ctx.Not(cond)
 	m.Stats.AssertQueries++
 	t0 := m.solver.Time
-	r, model := m.solver.CheckModel(m.pc, neg, m.inputVars())
+	cs := m.closure(neg)
+	key := "A" + queryKey(cs, neg)
+	var r smt.Result
+	var model map[string]uint64
+	if cached, ok := m.acache[key]; ok {
+		r = cached
+		m.Stats.CacheHits++
+	} else {
+		r = m.solver.CheckIsolated(append(append([]*sym.Term{}, cs...), neg))
+		if len(m.acache) < 1_000_000 {
+			m.acache[key] = r
+		}
+	}
+	if r == smt.Sat {
+		r, model = m.solver.CheckModel(m.pc, neg, m.inputVars())
+	}
 	ob.Ms = float64((m.solver.Time - t0).Microseconds()) / 1000
-	if m.WantScripts {
-		ob.Script = smt.Script(m.pc, neg)
+	if m.WantScripts && len(m.Obligations) < 3000 {
+		ob.Script = smt.Script(cs, neg)
 	}
 	switch r {
 	case smt.Unsat:
@@ -476,13 +514,11 @@ func (m *Machine) assert(cond *sym.Term, id string) {
 	}
 	// continue the path under the assertion (so later asserts are independent)
 	if r != smt.Unsat {
-		m.addPC(cond)
-		if !m.feasible(nil) {
+		if !m.feasible(cond) {
 			m.end("assume", "path dies after violated assertion "+id)
 		}
-	} else {
-		m.addPC(cond)
 	}
+	m.addPC(cond)
 }
 
 // ---------------------------------------------------------------- errors.Is/As
